@@ -25,6 +25,7 @@ func init() {
 			"R4b in the call closure of the event-log locator local evidence is read whole (no io.LimitReader / LimitedReader / CopyN, which truncate silently). " +
 			"R7 what package extract hands to the binary attestation parsers has no byte-normalising step (Trim*, To*, Replace*, Fields) in its history. " +
 			"R8 an absent source stays absent: the functions of the extraction and verification libraries (extract, extract/eventlog, extract/extractsev, extract/extracttdx, verify) that are handed options carrying a network getter or a UEFI-variable reader (a parameter whose struct has a field of type trust.HTTPSGetter / verify.HTTPSGetter / exel.VariableReader) manufacture no such source in their call closure (no conversion of a concrete type to one of these interfaces, no call of an external function returning one): a nil Getter stays nil and is refused, it is not replaced by a default that goes to the network. " +
+			"R9 an absent source is reported, not called: every method call through an interface-typed field of an options parameter (Getter, UEFIVariableReader, Provider) in extract, extract/eventlog, verify, gcetcbendorsement is dominated by the non-nil edge of a nil test of that field (finding F26). " +
 			"R6 (= C18.R9, eventlog encoders) encoding an event does not modify it. " +
 			"R5b the events maker's result is published as file contents in the invocation that computed it and is never stored into a field or global (no unkeyed cache of events across firmwares). " +
 			"R5 emitted events: both SP800-155 events are built with one GUID value; the URI locator is GCETcbURL of a name derived from hex(golden digest). " +
@@ -92,6 +93,7 @@ func runC16(c *Ctx) {
 		c.S.Floor("R7", "byte arguments of binary attestation parsers in package extract", 4, nParse)
 	}()
 	c16AbsentSourceStaysAbsent(c)
+	c16OptionalSourcesTested(c)
 	// R6 = C18.R9: the event encoders leave the event they encode untouched, so the manifest GUID written into the
 	// second event is the one written into the first.
 	c.borrow("R6/C18.", runC18, func(rule, construct string) bool { return rule == "R9" && strings.Contains(construct, "eventlog") })
@@ -979,4 +981,78 @@ func c16AbsentSourceStaysAbsent(c *Ctx) {
 		}
 	}
 	c.S.Floor("R8", "library functions handed options that carry a getter or variable reader", 6, n)
+}
+
+// c16OptionalSourcesTested is R9: a source the caller may leave absent (an interface-typed field of an options
+// parameter: network getter, UEFI-variable reader, quote provider) is only called through where the field was found
+// non-nil. The sibling arms of one switch already agree on this for the getter; an arm that calls through the reader
+// without the test panics on an event log the peer controls.
+func c16OptionalSourcesTested(c *Ctx) {
+	// the evidence sources an options value may leave absent (their absence has a documented error)
+	isOptionalSource := func(t types.Type) bool {
+		if _, ok := t.Underlying().(*types.Interface); !ok {
+			return false
+		}
+		return namedIs(t, "github.com/google/go-sev-guest/verify/trust", "HTTPSGetter") || namedIs(t, repoPath("verify"), "HTTPSGetter") || namedIs(t, repoPath("extract/eventlog"), "VariableReader") || namedIs(t, repoPath("extract"), "QuoteProvider")
+	}
+	lib := map[string]bool{"extract": true, "extract/eventlog": true, "verify": true, "gcetcbendorsement": true}
+	n := 0
+	for _, f := range c.P.RepoFunctions() {
+		if !lib[load.RelPkg(f)] || c.isTestFunc(f) || f.Blocks == nil {
+			continue
+		}
+		perField := map[string]int{}
+		for _, b := range f.Blocks {
+			for _, in := range b.Instrs {
+				call, ok := in.(ssa.CallInstruction)
+				if !ok || !call.Common().IsInvoke() {
+					continue
+				}
+				recv := call.Common().Value
+				ld, ok := recv.(*ssa.UnOp)
+				if !ok || ld.Op != token.MUL {
+					continue
+				}
+				fa, ok := ld.X.(*ssa.FieldAddr)
+				if !ok {
+					continue
+				}
+				// a field of an options value the function was handed (parameter, receiver or captured variable)
+				if !ownsValue(fa.X, f) {
+					continue
+				}
+				if !isOptionalSource(recv.Type()) {
+					continue
+				}
+				field := flow.FieldName(fa)
+				n++
+				perField[field]++
+				// dominated by the non-nil edge of a nil test of a load of the same field of the same object
+				tested := false
+				for _, cf := range dominatingConds(b) {
+					bo, ok := cf.Cond.(*ssa.BinOp)
+					if !ok || (bo.Op != token.EQL && bo.Op != token.NEQ) || !isNilK(bo.Y) {
+						continue
+					}
+					l2, ok := bo.X.(*ssa.UnOp)
+					if !ok || l2.Op != token.MUL {
+						continue
+					}
+					fa2, ok := l2.X.(*ssa.FieldAddr)
+					if !ok || fa2.Field != fa.Field || !samePointerValue(fa2.X, fa.X) {
+						continue
+					}
+					if (bo.Op == token.NEQ) == cf.Val {
+						tested = true
+					}
+				}
+				construct := fmt.Sprintf("%s:%s.%s", load.FuncName(f), field, call.Common().Method.Name())
+				if perField[field] > 1 {
+					construct = fmt.Sprintf("%s #%d", construct, perField[field])
+				}
+				c.S.Check(tested, "R9", construct, c.pos(call.Pos()), "called only where the field was found non-nil", "the optional source "+field+" is called through without having been tested for nil: with that source left absent (a legal configuration) the call panics instead of reporting that the source is absent")
+			}
+		}
+	}
+	c.S.Floor("R9", "calls through optional source fields of options parameters", 5, n)
 }
